@@ -771,6 +771,49 @@ func c06Check(ctx *vfCtx, c c06Case) {
 		}
 	}
 
+	// a batch may hold events of several room versions (a server verifies what it received from many
+	// rooms at once): every event is judged by ITS version's redaction, event-ID format and key-validity
+	// rule. The companion is a valid create event of a version across the v9 / v11 redaction boundary.
+	if len(kerrs) == 1 {
+		compVer := "11"
+		if tr.Redaction == "v11" {
+			compVer = "10"
+		}
+		comp, cpub, cerr := c06Companion(compVer)
+		if cerr != nil {
+			ctx.Unjudged("companion event of version " + compVer + " not buildable: " + cerr.Error())
+		} else {
+			keys2 := append(append([]c06RKey(nil), keys...), c06RKey{Server: "companion.example", KeyID: "ed25519:comp", Pub: cpub, ValidUntil: uint64(time.Now().Add(24*time.Hour).UnixMilli()) + 1<<40})
+			for _, order := range []string{"event-first", "companion-first"} {
+				batch := []PDU{pdu, comp}
+				if order == "companion-first" {
+					batch = []PDU{comp, pdu}
+				}
+				var errs []error
+				if vfCatch(ctx, "C06/mixed-batch", func() {
+					errs = VerifyAllEventSignatures(c06Ctx(), batch, KeyRing{KeyDatabase: c06NewDB(keys2)}, vfUserIDForSender)
+				}) {
+					return
+				}
+				if len(errs) != 2 {
+					ctx.Fail("C06/mixed-batch/verify-all-length", "VerifyAllEventSignatures returned %d results for 2 events", len(errs))
+					break
+				}
+				ctx.Class("mixed-batch/" + order)
+				eventErr, compErr := errs[0], errs[1]
+				if order == "companion-first" {
+					eventErr, compErr = errs[1], errs[0]
+				}
+				if compErr != nil {
+					ctx.Fail("C06/mixed-batch/valid-event-of-another-version-rejected/"+order, "a validly signed create event of room version %s is rejected (%v) when verified in one batch with an event of room version %s; %s", compVer, compErr, c.Version, detail)
+				}
+				if (eventErr == nil) != (kerrs[0] == nil) {
+					ctx.Fail("C06/mixed-batch/verdict-differs-from-single/"+order, "alone the event gives %v, in a batch with an event of room version %s it gives %v; %s", kerrs[0], compVer, eventErr, detail)
+				}
+			}
+		}
+	}
+
 	// which servers was the verifier asked about, and for which time?
 	if stub.nilFn {
 		ctx.Fail("C06/stub/no-validity-function", "a VerifyJSONRequest carries no ValidityCheckingFunc, so the room version's key-validity rule cannot be applied; %s", detail)
@@ -1463,4 +1506,21 @@ func c06SelfCheck(ctx *vfCtx, c c06SelfCase) {
 
 func init() {
 	vfRapid("C06/self-verifier-batch", "non-trivial = a batch of two or more requests (good, tampered, signed by another key, unsigned, named by something that is no key), in every order; distinct = distinct Case JSON", 1500, 40000, 4, c06SelfGen, c06SelfCheck)
+}
+
+// c06Companion builds (through the library's builder) a create event of the given room version, signed by
+// companion.example with a key of its own; it verifies on its own (checked by the caller's batches).
+func c06Companion(version string) (PDU, ed25519.PublicKey, error) {
+	impl, err := GetRoomVersion(RoomVersion(version))
+	if err != nil {
+		return nil, nil, err
+	}
+	pub, priv := vfKeyFor("c06:companion")
+	empty := ""
+	content := fmt.Sprintf(`{"creator":"@c:companion.example","room_version":%q,"m.federate":true,"predecessor":{"room_id":"!old:companion.example","event_id":"$x"}}`, version)
+	ev, err := impl.NewEventBuilderFromProtoEvent(&ProtoEvent{
+		SenderID: "@c:companion.example", RoomID: "!c06companion:companion.example", Type: "m.room.create", StateKey: &empty,
+		PrevEvents: []string{}, AuthEvents: []string{}, Depth: 1, Content: spec.RawJSON(content),
+	}).Build(time.UnixMilli(1700000000000), "companion.example", "ed25519:comp", priv)
+	return ev, pub, err
 }
